@@ -13,14 +13,21 @@ DRV = 'drv_c17'
 
 REGISTRY = {
     'id': 'C17',
-    'text': 'Lean theorems about the executable model of score.py: the two-pointer sweep of get_matched_indices equals the '
+    'text': 'Mechanical tie for the pure pieces of score.py: harness/translate_scorecore.py reads the CURRENT source with ast and emits '
+            'Generated/ScoreCorePy.lean (window bounds and peak comparisons of get_matched_indices, the three mode blocks of match_spectra, '
+            'label / de-duplication key / span of get_match_coverage, the whole body of get_matched_intensity_percentage); Props/C17Gen '
+            'proves each equal to the hand model (GenScore.f = Score.f) and restates monotonicity, sweep correctness, arg-min/arg-max, '
+            'coverage count and intensity share for the generated definitions; a piece outside the subset is reported as untranslated and '
+            'stays tied by correspondence. Lean theorems about the executable model of score.py: the two-pointer sweep of get_matched_indices equals the '
             'quadratic brute-force window for all sorted lists of any length (sweep_correct; th tolerance always, ppm for '
             'tolerance <= 1e6), mode all = window, closest/largest return an arg-min/arg-max of the window, None iff the window '
             'is empty, matched-intensity fraction = sum of distinct matched peaks / total and lies in [0,1], coverage counts a '
             'fragment once. The model runs at IEEE doubles in the driver and is compared bit-exactly with /repo on sorted and '
             'unsorted lists (grid with ties, off-grid, window-boundary values); the implementation is also checked directly '
             'against the Lean brute-force specification and an independent Python matcher',
-    'note': 'trusted: Lean kernel, axioms propext/Classical.choice/Quot.sound, the correspondence harness; theorems are over '
+    'note': 'trusted: Lean kernel, axioms propext/Classical.choice/Quot.sound, the correspondence harness, the score.py subset reader '
+            'translate_scorecore.py (its output Generated/ScoreCorePy.lean is committed and diffable; the loop structure of the sweep, the '
+            'error paths of match_spectra and the Counter/dict plumbing of coverage stay hand-modelled); theorems are over '
             'a linear order / the rationals, the float run is tied to them by the shared generic definition; peaks are identified '
             'by m/z in the intensity-fraction clause (FragmentMatch carries no peak index); binomial_score formula not modelled',
     'technique': 'Lean 4 proof about executable model + differential correspondence',
@@ -143,8 +150,16 @@ def run(chk):
     import peptacular as pt
     tier = chk.tier
     rng = chk.rng
-    chk.lean_build(['PeptVerif.Props.C17'], DRV)
+    # score.py -> Generated/ScoreCorePy.lean + Props/C17Gen.lean (equalities with the hand model), regenerated on change
+    from .. import translate_scorecore
+    gen_done, gen_unt = translate_scorecore.translate(chk)
+    chk.lean_build(['PeptVerif.Props.C17', 'PeptVerif.Props.C17Gen'], DRV)
     chk.trusted += [
+        'harness/translate_scorecore.py: the reading of the Python subset (names, 1e6 and 0, + - * /, the tolerance-type conditional, '
+        'abs of a difference, comparisons, indexes[0]/[1], fragments[i], list(range), a comprehension over range reading one list at the '
+        'index, slices, l.index(min(l)) / l.index(max(l)), tuples, the label f-string, a fixed attribute table for the match / fragment '
+        'record, dict comprehension keyed by an attribute, sum) into the combinators of Model/Score.lean; a comprehension / slice is read '
+        'as List.drop/take (Python would raise IndexError only for a window outside the list, which get_matched_indices never returns)',
         'modelled (Model/Score.lean, generic number type, run at IEEE double in the driver): get_matched_indices, match_spectra, '
         'get_fragment_matches at the level of (fragment position, m/z) and (m/z, intensity) lists, get_match_coverage on '
         '(fragment key, charge, ion type, start, end), get_matched_intensity_percentage',
@@ -435,7 +450,8 @@ def run(chk):
     shrink_sequence_failures(chk)
     c17_reach.record(chk, reach)
     if tier == 'thorough':
-        chk.leanchecker(['PeptVerif.Props.C17', 'PeptVerif.Lemmas.Score', 'PeptVerif.Model.Score', 'PeptVerif.Spec.Score'])
+        chk.leanchecker(['PeptVerif.Props.C17', 'PeptVerif.Props.C17Gen', 'PeptVerif.Generated.ScoreCorePy', 'PeptVerif.Lemmas.ScoreGen',
+                         'PeptVerif.Lemmas.Score', 'PeptVerif.Model.Score', 'PeptVerif.Spec.Score'])
     return chk.finish(classify)
 
 
